@@ -169,10 +169,13 @@ impl ObjH {
     }
 
     pub fn debug(&self) -> String {
-        match self {
+        // (the queue of an object one of whose operations has panicked may have a poisoned lock: its Debug text is then not
+        // available, which is no reason for the harness to die)
+        let r = rt::catch_unwind(|| match self {
             ObjH::D(d) => d.verif_queue_debug(),
             ObjH::Q(q, _) => format!("{:?}", q),
-        }
+        });
+        r.unwrap_or_else(|_| "<queue state not available: its lock is poisoned>".to_string())
     }
 }
 
